@@ -123,10 +123,14 @@ static fq_t g_q[MAXQ + 1];
 /* client sockets: descriptor -> instance number u (1, 2, ... in creation order), UDP port once bound */
 static struct { int fd; long u; uint16_t port; int fam; } g_sk[MAXSK]; static int g_nsk; static long g_u;
 static int g_tfd[256]; static int g_ntfd;             /* live timerfds created while the client is live */
-static void *g_qmem[256]; static int g_nqmem;         /* live query blocks */
+static void *g_qmem[256]; static int g_qmem_q[256]; static int g_nqmem; /* live query blocks and the scenario query they belong to */
+static __thread int vh_cur_q;                         /* query number of the radius_client_query() call in progress on this thread */
 static long g_x, g_d;                                 /* transmission / reply datagram counters */
 static int g_sockfail;                                /* errno for the client's next socket() calls */
 static pthread_mutex_t g_led_mu = PTHREAD_MUTEX_INITIALIZER;
+static struct { const radius_cli_skt_t *p; int t, fam, s; } g_sreg[MAXSK]; static int g_nsreg; /* live socket blocks and their table position once seen */
+static void *g_tab[64][2];                            /* addresses of the per-thread socket tables, taken at create */
+static volatile int g_arr_freed[64][2];               /* the per-thread socket table (family 4 / 6) was released by the client */
 
 static int sk_find(int fd) { for (int i = 0; i < g_nsk; i++) if (g_sk[i].fd == fd) return i; return -1; }
 static long sk_by_port(uint16_t port, int fam) { for (int i = 0; i < g_nsk; i++) if (g_sk[i].port == port && g_sk[i].fam == fam && port) return g_sk[i].u; return 0; }
@@ -137,7 +141,7 @@ static int cli_sock_index(int t, int fd, int *fam) {
 	radius_cli_thr_p th = &g_cli->thr[t];
 	for (int f = 0; f < 2; f++) {
 		radius_cli_skts_p ss = f ? &th->skts6 : &th->skts4;
-		if (!ss->skt) continue;
+		if (!ss->skt || g_arr_freed[t & 63][f]) continue;
 		for (size_t i = 0; i < g_cli->s.thr_sockets_max; i++)
 			if (ss->skt[i] && (int)ss->skt[i]->ident == fd) { *fam = f ? 6 : 4; return (int)i; }
 	}
@@ -145,22 +149,29 @@ static int cli_sock_index(int t, int fd, int *fam) {
 }
 static int cli_tmr_index(int t, const void *ud, int *fam, int *id) {
 	if (!g_cli || t < 0 || t >= (int)g_cli->thr_count) return -1;
-	radius_cli_thr_p th = &g_cli->thr[t];
-	for (int f = 0; f < 2; f++) {
-		radius_cli_skts_p ss = f ? &th->skts6 : &th->skts4;
-		if (!ss->skt) continue;
-		for (size_t i = 0; i < g_cli->s.thr_sockets_max; i++) {
-			radius_cli_skt_p s = ss->skt[i];
-			if (!s) continue;
-			const tp_udata_t *p = ud;
-			if (p >= &s->queries_tmr[0] && p < &s->queries_tmr[RADIUS_PKT_HDR_ID_MAX_COUNT]) {
-				*fam = f ? 6 : 4; *id = (int)(p - &s->queries_tmr[0]); return (int)i;
+	const tp_udata_t *p = ud;
+	int r = -1;
+	pthread_mutex_lock(&g_led_mu);
+	for (int k = 0; k < g_nsreg; k++) {
+		const radius_cli_skt_t *s = g_sreg[k].p;
+		if (p < &s->queries_tmr[0] || p >= &s->queries_tmr[RADIUS_PKT_HDR_ID_MAX_COUNT]) continue;
+		*id = (int)(p - &s->queries_tmr[0]);
+		if (g_sreg[k].s < 0) { /* first sight: look the block up in the thread's tables (it was just appended) */
+			radius_cli_thr_p th = &g_cli->thr[t];
+			for (int f = 0; f < 2 && g_sreg[k].s < 0; f++) {
+				radius_cli_skts_p ss = f ? &th->skts6 : &th->skts4;
+				if (!ss->skt || g_arr_freed[t & 63][f]) continue;
+				for (size_t i = 0; i < g_cli->s.thr_sockets_max; i++)
+					if (ss->skt[i] == s) { g_sreg[k].s = (int)i; g_sreg[k].fam = f ? 6 : 4; g_sreg[k].t = t; break; }
 			}
 		}
+		*fam = g_sreg[k].fam; r = g_sreg[k].s;
+		break;
 	}
-	return -1;
+	pthread_mutex_unlock(&g_led_mu);
+	return r;
 }
-static int q_by_handle(const void *h) { for (int i = 1; i <= MAXQ; i++) if (g_q[i].submitted && g_q[i].h == h) return i; return 0; }
+static int q_by_handle(const void *h) { int q = 0; pthread_mutex_lock(&g_led_mu); for (int i = 0; i < g_nqmem; i++) if (g_qmem[i] == h) q = g_qmem_q[i]; pthread_mutex_unlock(&g_led_mu); return q; }
 
 /* ------------------------------------------------------------------ forced clock (jitter control) */
 static volatile int g_force_clk; static struct timespec g_forced_ts; static __thread int vh_probe;
@@ -184,6 +195,8 @@ void liblcb_verif_point(const char *label, const void *a, const void *b, uintptr
 		} else if ((const void *)val == (const void *)radius_client_query_done_tpt_msg_cb) {
 			LOGEV("\"e\":\"donemsg\",\"q\":%d", q_by_handle(b));
 		}
+	} else if (0 == strcmp(label, "sync.proxy")) {
+		if (((const tpt_msg_data_t *)b)->msg_cb == radius_client_destroy_tpt_msg_cb) LOGEV("\"e\":\"destroy.thr\"");
 	} else if (0 == strcmp(label, "loop.cb")) {
 		if ((val & 0xffff) == TP_EV_TIMER && g_cli_live) {
 			int fam = 0, id = 0, s = cli_tmr_index(tid_now(), b, &fam, &id);
@@ -254,15 +267,25 @@ int __wrap_close(int fd) {
 }
 void *__wrap_calloc(size_t n, size_t sz) {
 	void *p = __real_calloc(n, sz);
+	if (p && g_cli_live && n == 1 && sz == sizeof(radius_cli_skt_t)) {
+		pthread_mutex_lock(&g_led_mu); if (g_nsreg < MAXSK) { g_sreg[g_nsreg].p = p; g_sreg[g_nsreg].s = -1; g_sreg[g_nsreg].fam = 0; g_sreg[g_nsreg].t = -1; g_nsreg++; } pthread_mutex_unlock(&g_led_mu);
+	}
 	if (p && g_cli_live && n == 1 && sz == sizeof(radius_cli_query_t)) {
-		pthread_mutex_lock(&g_led_mu); if (g_nqmem < 256) g_qmem[g_nqmem++] = p; pthread_mutex_unlock(&g_led_mu);
+		pthread_mutex_lock(&g_led_mu); if (g_nqmem < 256) { g_qmem[g_nqmem] = p; g_qmem_q[g_nqmem] = vh_cur_q; g_nqmem++; } pthread_mutex_unlock(&g_led_mu);
 	}
 	return p;
 }
 void __wrap_free(void *p) {
+	if (p && g_cli_live) {
+		for (size_t t = 0; t < 64; t++) {
+			if (p == g_tab[t][0]) g_arr_freed[t][0] = 1;
+			if (p == g_tab[t][1]) g_arr_freed[t][1] = 1;
+		}
+	}
 	if (p) {
 		pthread_mutex_lock(&g_led_mu);
-		for (int i = 0; i < g_nqmem; i++) if (g_qmem[i] == p) { g_qmem[i] = g_qmem[--g_nqmem]; break; }
+		for (int i = 0; i < g_nsreg; i++) if ((const void *)g_sreg[i].p == p) { g_sreg[i] = g_sreg[--g_nsreg]; break; }
+		for (int i = 0; i < g_nqmem; i++) if (g_qmem[i] == p) { --g_nqmem; g_qmem[i] = g_qmem[g_nqmem]; g_qmem_q[i] = g_qmem_q[g_nqmem]; break; }
 		pthread_mutex_unlock(&g_led_mu);
 	}
 	__real_free(p);
@@ -412,7 +435,7 @@ static void do_query(int q, const char *args) {
 	fq->submitted = 1;
 	LOGEV("\"e\":\"call.query\",\"q\":%d,\"thr\":%d,\"idany\":%d,\"i\":%d,\"nonce\":%d,\"code\":%d,\"pwd\":%d", q, thr, (idv == RADIUS_CLIENT_QUERY_ID_AUTO), (idv == RADIUS_CLIENT_QUERY_ID_AUTO) ? 0 : (int)idv, nonce, code, pwd);
 	/* the handle is stored by the library before the message can run only if we pass query_ret; the start hook looks it up by value */
-	pthread_mutex_lock(&g_led_mu); pthread_mutex_unlock(&g_led_mu);
+	vh_cur_q = q;
 	int rc = radius_client_query(g_cli, &g_tp->threads[thr], idv, &fq->buf, user_cb, (void *)(intptr_t)q, &fq->h);
 	LOGEV("\"e\":\"ret.query\",\"q\":%d,\"rc\":%d", q, rc);
 	if (rc != 0) fq->submitted = 0;
@@ -433,7 +456,7 @@ static int on_thread(int thr, const char *line, int wait_ms) { /* run a scenario
 	if (rc != 0) { __real_free(c); return rc; }
 	struct timespec ts; __real_clock_gettime(CLOCK_REALTIME, &ts);
 	ts.tv_sec += wait_ms / 1000; ts.tv_nsec += (long)(wait_ms % 1000) * 1000000L; if (ts.tv_nsec >= 1000000000L) { ts.tv_sec++; ts.tv_nsec -= 1000000000L; }
-	if (sem_timedwait(&c->sem, &ts) != 0) { LOGEV("\"e\":\"Hang\",\"where\":\"ctl\",\"q\":0"); return ETIMEDOUT; } /* c is leaked on purpose */
+	if (sem_timedwait(&c->sem, &ts) != 0) { LOGEV("\"e\":\"Hang\",\"where\":\"ctl\",\"q\":0"); flush_log(); _exit(3); } /* the pool thread stopped serving: the execution ends here */
 	sem_destroy(&c->sem); __real_free(c);
 	return 0;
 }
@@ -474,7 +497,7 @@ static void rnd_set(const char *args) { /* rnd d:class ... ; class zero|pos1|neg
 	}
 	int found = 0;
 	vh_probe = 1; g_force_clk = 1;
-	for (long cand = 1; cand < 4000000 && !found; cand++) {
+	for (long cand = 1; cand < 30000 && !found; cand++) {
 		g_forced_ts.tv_sec = 1000 + cand / 1000000; g_forced_ts.tv_nsec = (cand % 1000000) * 7;
 		int ok = 1;
 		for (int i = 0; i < n && ok; i++) {
@@ -523,10 +546,12 @@ static void exec_line(char *line) {
 		radius_cli_settings_t s; radius_client_def_settings(&s);
 		s.thr_sockets_min = (size_t)a; s.thr_sockets_max = (size_t)b; s.servers_max = MAXSRV;
 		if (c) { memcpy(s.NAS_Identifier, "x02-nas", 7); s.NAS_Identifier_size = 7; }
-		pthread_mutex_lock(&g_led_mu); g_nsk = 0; g_ntfd = 0; g_nqmem = 0; g_u = 0; pthread_mutex_unlock(&g_led_mu);
-		g_x = 0; g_d = 0; g_nsrv = 0; g_sockfail = 0;
+		pthread_mutex_lock(&g_led_mu); g_nsk = 0; g_ntfd = 0; g_nqmem = 0; g_u = 0; g_nsreg = 0; pthread_mutex_unlock(&g_led_mu);
+		g_x = 0; g_d = 0; g_nsrv = 0; g_sockfail = 0; memset((void *)g_arr_freed, 0, sizeof(g_arr_freed));
 		memset(g_q, 0, sizeof(g_q));
 		int rc = radius_client_create(g_tp, &s, &g_cli);
+		memset(g_tab, 0, sizeof(g_tab));
+		for (size_t t = 0; rc == 0 && t < g_cli->thr_count && t < 64; t++) { g_tab[t][0] = g_cli->thr[t].skts4.skt; g_tab[t][1] = g_cli->thr[t].skts6.skt; }
 		g_cli_live = (rc == 0);
 		LOGEV("\"e\":\"client\",\"smin\":%d,\"smax\":%d,\"nas\":%d,\"nthr\":%zu,\"rc\":%d", a ? a : 1, (b < (a ? a : 1)) ? (a ? a : 1) : b, c, g_nthr, rc);
 	} else if (!strcmp(op, "server")) { /* server k fam irt mrt mrd mrc sec */
@@ -564,6 +589,15 @@ static void exec_line(char *line) {
 	} else if (!strcmp(op, "tquery")) { /* the same call made on pool thread thr: tquery thr q ... */
 		sscanf(args, "%d", &a);
 		char l2[256]; snprintf(l2, sizeof(l2), "query %s", strchr(args, ' ') ? strchr(args, ' ') + 1 : "");
+		on_thread(a, l2, 10000);
+	} else if (!strcmp(op, "qc")) { /* query + cancel in one go (on a pool thread: the query message is still queued) */
+		sscanf(args, "%d", &a);
+		const char *r = strchr(args, ' ');
+		do_query(a, r ? r + 1 : "");
+		char l2[64]; snprintf(l2, sizeof(l2), "cancel %d", a); exec_line(l2);
+	} else if (!strcmp(op, "tqc")) { /* tqc thr q ... */
+		sscanf(args, "%d", &a);
+		char l2[256]; snprintf(l2, sizeof(l2), "qc %s", strchr(args, ' ') ? strchr(args, ' ') + 1 : "");
 		on_thread(a, l2, 10000);
 	} else if (!strcmp(op, "srvrx")) { /* srvrx k timeout_ms */
 		sscanf(args, "%d %d", &a, &b);
@@ -605,7 +639,7 @@ static void exec_line(char *line) {
 	} else if (!strcmp(op, "waitcb")) { /* waitcb q ms */
 		sscanf(args, "%d %d", &a, &b);
 		for (int t = 0; t < b * 5 && !g_q[a].cbdone; t++) usleep(200);
-		if (!g_q[a].cbdone) LOGEV("\"e\":\"Hang\",\"where\":\"waitcb\",\"q\":%d", a);
+		if (!g_q[a].cbdone) { LOGEV("\"e\":\"Hang\",\"where\":\"waitcb\",\"q\":%d", a); flush_log(); _exit(3); } /* a bounded wait expired: the execution ends here */
 	} else if (!strcmp(op, "cancel")) { /* cancel q : on the owning thread, only while the callback has not run */
 		sscanf(args, "%d", &a);
 		if (tid_now() >= 100) { char l2[64]; snprintf(l2, sizeof(l2), "cancel %d", a); on_thread(g_q[a].thr, l2, 10000); return; }
